@@ -145,3 +145,6 @@ def rest(ctx):
     ctx.must_call("<may::sync::mpsc::Sender as std::clone::Clone>::clone", Call(re.escape(MP) + "::clone_chan"), "raii/mpsc-clone-counts", "a cloned Sender is counted")
     ctx.must_call("<may::sync::mpmc::Sender as std::clone::Clone>::clone", Call(re.escape(MM) + "::clone_tx"), "raii/mpmc-clone-tx-counts", "a cloned Sender is counted")
     ctx.must_call("<may::sync::mpmc::Receiver as std::clone::Clone>::clone", Call(re.escape(MM) + "::clone_rx"), "raii/mpmc-clone-rx-counts", "a cloned Receiver is counted")
+    # dependencies (round-3 seeds C07-5, C07-6): the disconnect permit travels through the Semphore hand-off; the spsc thread receiver's re-check
+    ctx.import_rules("C10", r"^handshake|^waker")
+    ctx.import_rules("C06", r"^spsc/thread-register-then-recheck")
